@@ -1,7 +1,7 @@
 #!/bin/bash
 # usage: verify_seed.sh <PID> [suffix]   confirms a seeded change in its scratch worktree /tmp/wt_<PID>:
 #   existing tests pass with the change; the demo fails with it and passes without it.
-PID="$1"; SFX="$2"; WT=/tmp/wt_$PID; SEED=/tmp/seedstore/$PID$SFX
+PID="$1"; SFX="$2"; WT=/tmp/${WTPREFIX:-wt}_$PID; SEED=/tmp/seedstore/$PID$SFX
 export GOFLAGS=-mod=mod GOPROXY=off GOSUMDB=off GOTOOLCHAIN=local
 mkdir -p /tmp/seedstore
 if [ ! -d "$SEED" ]; then cp -r $WT/seed $SEED || exit 2; fi
